@@ -738,7 +738,19 @@ fn native_concurrent(seed: u64) -> Option<String> {
         jobs.push(mine);
     }
     let rounds = 40usize;
-    let alone: Vec<Vec<Vec<Out>>> = jobs.iter().map(|mine| mine.iter().map(|(b, s)| alone_inproc(b, s)).collect()).collect();
+    // baselines come from *separately built* ranges (same recipe, same layout): the
+    // shared range objects themselves are first touched by the concurrent threads
+    let alone: Vec<Vec<Vec<Out>>> = jobs
+        .iter()
+        .map(|mine| {
+            mine.iter()
+                .map(|(b, s)| {
+                    let fresh = BuiltScen { scen: b.scen.clone(), ranges: Arc::new(b.scen.build_ranges()) };
+                    alone_inproc(&fresh, s)
+                })
+                .collect()
+        })
+        .collect();
     let barrier = Arc::new(std::sync::Barrier::new(n));
     let hs: Vec<_> = jobs
         .iter()
@@ -803,8 +815,18 @@ fn native_heavy(seed: u64) -> Option<String> {
         let s = Scenario { flop, players };
         jobs.push(BuiltScen { scen: s.clone(), ranges: Arc::new(s.build_ranges()) });
     }
+    // every second thread works on the very same range objects as its neighbour
+    for i in (1..n).step_by(2) {
+        jobs[i] = jobs[i - 1].clone();
+    }
     let spec = TaskSpec { scen: 0, scope: None, pre: vec![], extra_polls: 0 };
-    let alone: Vec<Vec<Out>> = jobs.iter().map(|b| alone_inproc(b, &spec)).collect();
+    let alone: Vec<Vec<Out>> = jobs
+        .iter()
+        .map(|b| {
+            let fresh = BuiltScen { scen: b.scen.clone(), ranges: Arc::new(b.scen.build_ranges()) };
+            alone_inproc(&fresh, &spec)
+        })
+        .collect();
     let barrier = Arc::new(std::sync::Barrier::new(n));
     let hs: Vec<_> = jobs
         .iter()
